@@ -3,6 +3,8 @@ package smtp
 import (
 	"io"
 	"net"
+	"strconv"
+	"time"
 )
 
 // verif_C07_data_cut: a DATA conversation with arbitrary body octets is cut at
@@ -177,4 +179,123 @@ func verif_C07_abandon() {
 	verifAssert(string(got) == string(c1), "C07.abandoned-transfer-octets")
 	verifAssert(verifGoroutinesAlive() == 0, "C07.abandon-no-goroutine-left")
 	verifReach("C07.abandon-end")
+}
+
+// verif_C07_timeout: the read deadline expires at an ARBITRARY offset inside a
+// BDAT chunk (accepted LAST chunk, accepted non-LAST chunk, or the chunk of a
+// refused BDAT); the peer is slow, not gone: the rest of the chunk - which looks
+// like a command line - arrives afterwards. The backend never reads EOF, no
+// positive reply is given for the cut chunk and no octet of it is executed.
+func verif_C07_timeout() {
+	verifPreemptBound(0)
+	shape := verifChoice(3) // 0 accepted LAST chunk, 1 accepted non-LAST chunk, 2 refused BDAT (no transaction)
+	chunk := "ab\r\nMAIL FROM:<bait@v>\r\ncd"
+	head := "EHLO c\r\n"
+	nhead := 2 // greeting + EHLO
+	line := "BDAT " + strconv.Itoa(len(chunk))
+	switch shape {
+	case 0:
+		head += "MAIL FROM:<s@v>\r\nRCPT TO:<r@v>\r\n"
+		nhead += 2
+		line += " LAST"
+	case 1:
+		head += "MAIL FROM:<s@v>\r\nRCPT TO:<r@v>\r\n"
+		nhead += 2
+	}
+	head += line + "\r\n"
+	tail := "\r\nMAIL FROM:<marker@v>\r\n"
+	at := nondetInt(0, len(chunk)-1)
+	var rerr error
+	var got []byte
+	be := &vbackend{}
+	be.dataFn = func(_ *vsession, r io.Reader) error {
+		got, rerr = verifReadAll(r, 3)
+		if rerr == io.EOF {
+			return nil
+		}
+		return rerr
+	}
+	s, _ := verifServer(be)
+	s.ReadTimeout = time.Second
+	vc := &vconn{in: []byte(head + chunk + tail), final: io.EOF}
+	vc.faults = map[int]error{len(head) + at: verifTimeoutErr{}}
+	c := newConn(vc, s)
+	s.handleConn(c)
+	verifSettle()
+	reps, wf := verifParseReplies(vc.out)
+	verifObserve("c07to", shape, at, wf, len(reps), len(be.trace), rerr == io.EOF, len(got))
+	verifAssert(wf, "C07.timeout-replies-wellformed")
+	verifAssert(be.find("Mail", "bait@v") < 0, "C07.timeout-no-chunk-octet-executed")
+	if shape != 2 {
+		verifAssert(be.count("Data") == 1 && rerr != nil && rerr != io.EOF, "C07.timeout-backend-never-reads-eof")
+		verifAssert(verifIsPrefix(got, []byte(chunk)), "C07.timeout-octets-are-a-prefix")
+	}
+	if wf && len(reps) > nhead {
+		verifAssert(reps[nhead].code/100 != 2, "C07.timeout-no-positive-reply")
+	}
+	verifAssert(verifGoroutinesAlive() == 0, "C07.timeout-no-goroutine-left")
+	verifReach("C07.timeout-end")
+}
+
+// verif_C07_bdat_huge: a BDAT (LAST or not) that announces a size at an integer
+// boundary (2^31-1 .. 2^64) of which only 0..2 octets arrive before the
+// connection ends, as the first chunk or after a complete one, with and without
+// a size limit. Whatever the arithmetic makes of the size, the chunk has not
+// been received in full: no positive reply for it, and the backend - if it was
+// called at all - never reads EOF.
+func verif_C07_bdat_huge() {
+	verifPreemptBound(0)
+	sizes := []string{"2147483647", "2147483648", "4294967295", "4294967296", "9223372036854775807",
+		"9223372036854775808", "18446744073709551606", "18446744073709551615", "18446744073709551616"}
+	size := sizes[verifChoice(len(sizes))]
+	last := nondetBool()
+	after := nondetBool() // a complete 2-octet chunk first
+	limit := nondetBool()
+	lmtp := nondetBool()
+	have := nondetBytesN(nondetInt(0, 2))
+	hello := "EHLO c\r\n"
+	if lmtp {
+		hello = "LHLO c\r\n"
+	}
+	in := hello + "MAIL FROM:<s@v>\r\nRCPT TO:<r@v>\r\n"
+	npre := 4
+	if after {
+		in += "BDAT 2\r\nab"
+		npre++
+	}
+	in += "BDAT " + size
+	if last {
+		in += " LAST"
+	}
+	in += "\r\n" + string(have)
+	var rerr error
+	called := false
+	be := &vbackend{}
+	be.dataFn = func(_ *vsession, r io.Reader) error {
+		called = true
+		_, rerr = verifReadAll(r, 3)
+		if rerr == io.EOF {
+			return nil
+		}
+		return rerr
+	}
+	s, _ := verifServer(be)
+	s.LMTP = lmtp
+	if limit {
+		s.MaxMessageBytes = 1000
+	}
+	vc, _, _ := verifServe(s, []byte(in), io.EOF)
+	reps, wf := verifParseReplies(vc.out)
+	verifObserve("c07huge", size, last, after, limit, lmtp, len(have), wf, len(reps), called, rerr == io.EOF)
+	verifAssert(wf, "C07.huge-replies-wellformed")
+	if called {
+		verifAssert(rerr != nil && rerr != io.EOF, "C07.huge-backend-never-reads-eof")
+	}
+	if wf {
+		for _, r := range reps[npre:] {
+			verifAssert(r.code/100 != 2, "C07.huge-no-positive-reply")
+		}
+	}
+	verifAssert(verifGoroutinesAlive() == 0, "C07.huge-no-goroutine-left")
+	verifReach("C07.huge-end")
 }
